@@ -102,7 +102,7 @@ def mc_cfg(mode, nmax):
 
 def run(ctx):
     quick = ctx.tier == "quick"
-    nmax = 12 if quick else 14
+    nmax = 12 if quick else 16
     ctx.rule = ("TLC: split loop = definition and accepted for all 2^n markers, n <= %d; comparison loop within the marker "
                 "definition for all rows over {0,1,2,NaN}^k x thresholds {0,1,2}^k x modes, k <= 3. Binding: split() on every "
                 "marker vector of length 1..%d and random ones to length 40; segmentation() on tracks enumerating every value "
@@ -125,7 +125,7 @@ def run(ctx):
             jobs.append((job_split, (n, lo, min(tot, lo + step))))
     for k in (1, 2, 3):
         jobs.append((job_seg, (k,)))
-    per = 40 if quick else 800
+    per = 40 if quick else 4000
     for k in range(16):
         jobs.append((job_random, (ctx.seed * 23 + k, per)))
     events = []
